@@ -70,7 +70,13 @@ func randomHistory(r *Rand, o HistOpts) *Hist {
 		switch {
 		case choice < 45 && o.Setters:
 			s := r.N(9)
-			h.Set(k, s, genSetterValue(r, s))
+			v := genSetterValue(r, s)
+			if r.P(15) {
+				// re-assign the component's CURRENT text (or a neighbour's): a no-op on every parse result, but not on states that
+				// only setters reach (file + localhost, file + "C|" after a protocol change, a list out of step with the query)
+				v = currentValue(h.urls[k], []int{s, s, s, r.N(9)}[r.N(4)])
+			}
+			h.Set(k, s, v)
 			if o.Reparse {
 				h.reparse(k)
 			}
@@ -125,6 +131,30 @@ func randomHistory(r *Rand, o HistOpts) *Hist {
 		}
 	}
 	return h
+}
+
+// the text the getter of setter kind s returns now
+func currentValue(u *url.Url, s int) string {
+	switch s {
+	case 0:
+		return u.Protocol()
+	case 1:
+		return u.Username()
+	case 2:
+		return u.Password()
+	case 3:
+		return u.Host()
+	case 4:
+		return u.Hostname()
+	case 5:
+		return u.Port()
+	case 6:
+		return u.Pathname()
+	case 7:
+		return u.Search()
+	default:
+		return u.Hash()
+	}
 }
 
 func allOps(cfg func(r *Rand) *Cfg) HistOpts {
